@@ -57,7 +57,7 @@ def strategy(ctx):
 
 
 def budget(ctx):
-    return dict(max_examples=ctx.pick(640, 6400), shards=16)
+    return dict(max_examples=ctx.pick(640, 20000), shards=16)
 
 
 def warmup():
